@@ -47,6 +47,7 @@ var (
 	setupFindings []finding
 	setupStats    = map[string]int64{}
 	setupEmitted  bool
+	coldDone      bool
 )
 
 func configsFor(tier string) []config {
@@ -67,9 +68,9 @@ func numCases(env *runner.Env) int {
 // minimum rounds (alternating tracked / blind), cap.
 func geometry(tier string) (opsPerRound, minRounds, capRounds int) {
 	if tier == "thorough" {
-		return 3072, 10, 24
+		return 2048, 8, 24
 	}
-	return 1024, 6, 20
+	return 768, 6, 20
 }
 
 func init() {
@@ -78,7 +79,8 @@ func init() {
 		Rule: "One case = one (G goroutines, GOMAXPROCS P) configuration (quick: (4,2) (16,8) (64,16); thorough: {4,16,64}x{2,8,16}, each 3 times with different sub-seeds) run in a -race worker process. " +
 			"Pool of shared buffers = 33 repo test files (progressive, fragmented, init+segment concatenations, cenc/cbcs/PIFF encrypted, HEVC, subtitles), boxes cut from them by the reference walker (<=3 per type), video samples / parameter sets / SEI NAL units re-located inside the shared file buffers, Annex B streams (plus odd-offset views and 4-byte-start-code variants), shared key/iv/kid/pssh buffers. " +
 			"Reference results: every (kind, input, variant) is executed alone by three FRESH single-goroutine processes that run the whole list in forward, reverse and permuted order; it becomes a spec if it succeeds; results that differ between the orders are a hidden-state violation. The worker itself calls no library operation before its first concurrent round (cold start: lazy initialisation and caches are met concurrently). " +
-			"A case runs rounds: each round starts G goroutines behind a barrier which each loop over PRNG-chosen operations (kind uniformly, then spec uniformly; cheap kinds in batches) on the shared buffers and compare every result with the reference. " +
+			"The first case of every worker process starts with a cold lockstep round: for every spec (PRNG order) 4 goroutines are released together and all execute that same spec once, so each lazily initialised table or cache on a covered path is first met by goroutines that are unordered with respect to each other. " +
+			"A case then runs rounds: each round starts G goroutines behind a barrier which each loop over PRNG-chosen operations (kind uniformly, then spec uniformly; cheap kinds in batches) on the shared buffers and compare every result with the reference. " +
 			"Even rounds (incl. the first) are 'blind' (no harness synchronisation between goroutines, so the happens-before race detector keeps its full reach), odd rounds are 'tracked' (atomic in-flight counters per kind sampled at operation start give the overlapping kind pairs). After the minimum number of rounds, tracked rounds are added up to the cap until every pair of kinds has overlapped in this case. " +
 			"In-place operations (EncryptFragment, Decrypt*, ConvertSampleToByteStream, 4-byte-start-code ConvertByteStreamToNaluSample) only run on reader-path decodes or private copies; everything else runs on SliceReader decodes of / directly on the shared buffers. Before and after every operation the goroutine registers a range read of its operand buffers with the race detector (witness read). SHA-256 canary over all shared buffers after every round and after every reference pass. " +
 			"evaluations = compared operation results; distinct_nontrivial = tracked rounds in which at least one pair of operations overlapped and results were compared. Race reports are read from the GORACE log files of all workers; a deliberate harness race in every worker's setup proves the reporting channel.",
@@ -500,6 +502,56 @@ func runRound(cfg config, r *runner.Rand, round, opsPerRound int, tracked bool) 
 	return out
 }
 
+// runLockstep is the cold-start round of a worker process: for every spec (in
+// PRNG order) K goroutines are released together and all execute that same
+// spec once. Nothing of the library has run in this process before, so every
+// lazily initialised table / cache on a covered code path is met for the
+// first time by K goroutines that are unordered with respect to each other
+// (the only synchronisation is the start/finish of each phase).
+func runLockstep(r *runner.Rand, K int) *gres {
+	total := &gres{}
+	order := r.Perm(len(specs))
+	out := make([]*gres, K)
+	for i := range out {
+		out[i] = &gres{}
+	}
+	for phase, si := range order {
+		s := &specs[si]
+		start := make(chan struct{})
+		var wg sync.WaitGroup
+		for g := 0; g < K; g++ {
+			wg.Add(1)
+			go func(g int) {
+				defer wg.Done()
+				<-start
+				got := execOp(pl, s.kind, pl.inputs[s.input], s.variant)
+				gr := out[g]
+				gr.evals++
+				gr.ops++
+				gr.kindOps[s.kind]++
+				if got != s.want {
+					gr.nMism++
+					if len(gr.mism) < 8 {
+						gr.mism = append(gr.mism, mismatch{si, got, g, -1 - phase})
+					}
+				}
+			}(g)
+		}
+		close(start)
+		wg.Wait()
+	}
+	for _, g := range out {
+		total.evals += g.evals
+		total.ops += g.ops
+		total.nMism += g.nMism
+		total.mism = append(total.mism, g.mism...)
+		for k := 0; k < nKinds; k++ {
+			total.kindOps[k] += g.kindOps[k]
+		}
+	}
+	return total
+}
+
 func run(c *runner.Ctx, idx int) {
 	if !setupEmitted {
 		setupEmitted = true
@@ -549,6 +601,42 @@ func run(c *runner.Ctx, idx int) {
 		return n
 	}
 	var totalEvals, totalOps, totalMism int64
+	report := func(m mismatch, how string, tracked bool) {
+		s := &specs[m.spec]
+		cls := "value"
+		switch {
+		case strings.HasPrefix(m.got.note, "panic"):
+			cls = "panic"
+		case !m.got.ok():
+			cls = "error"
+		}
+		c.Violation("mismatch/"+kindNames[s.kind]+"/"+cls,
+			fmt.Sprintf("%s gave %016x (%s) in goroutine %d (%s, GOMAXPROCS %d, round %d) but %016x (%s) when run alone",
+				descOf(s), m.got.h, m.got.note, m.gor, how, cfg.P, m.round, s.want.h, s.want.note),
+			map[string]interface{}{"kind": kindNames[s.kind], "input": pl.inputs[s.input].id, "variant": s.variant,
+				"got": fmt.Sprintf("%016x", m.got.h), "got_note": m.got.note, "want": fmt.Sprintf("%016x", s.want.h),
+				"G": cfg.G, "P": cfg.P, "round": m.round, "tracked": tracked, "how": how})
+	}
+	if !coldDone {
+		coldDone = true
+		g := runLockstep(c.Rand, 4)
+		totalEvals += g.evals
+		totalOps += g.ops
+		totalMism += g.nMism
+		for _, m := range g.mism {
+			report(m, "cold lockstep round: 4 goroutines released together on the same spec", false)
+		}
+		for k := 0; k < nKinds; k++ {
+			if g.kindOps[k] > 0 {
+				c.Count("ops:"+kindNames[k], g.kindOps[k])
+			}
+		}
+		c.Count("cold_lockstep_phases", int64(len(specs)))
+		c.Count("cold_lockstep_results_compared", g.evals)
+		for _, f := range canaryCheck("the cold lockstep round of case " + cfgName) {
+			c.Violation(f.key, f.what, f.detail)
+		}
+	}
 	rounds := 0
 	for round := 0; round < capRounds; round++ {
 		tracked := round%2 == 1
@@ -576,20 +664,7 @@ func run(c *runner.Ctx, idx int) {
 				}
 			}
 			for _, m := range g.mism {
-				s := &specs[m.spec]
-				cls := "value"
-				switch {
-				case strings.HasPrefix(m.got.note, "panic"):
-					cls = "panic"
-				case !m.got.ok():
-					cls = "error"
-				}
-				c.Violation("mismatch/"+kindNames[s.kind]+"/"+cls,
-					fmt.Sprintf("%s gave %016x (%s) in goroutine %d of %d (GOMAXPROCS %d, round %d) but %016x (%s) when run alone",
-						descOf(s), m.got.h, m.got.note, m.gor, cfg.G, cfg.P, m.round, s.want.h, s.want.note),
-					map[string]interface{}{"kind": kindNames[s.kind], "input": pl.inputs[s.input].id, "variant": s.variant,
-						"got": fmt.Sprintf("%016x", m.got.h), "got_note": m.got.note, "want": fmt.Sprintf("%016x", s.want.h),
-						"G": cfg.G, "P": cfg.P, "round": m.round, "tracked": tracked})
+				report(m, fmt.Sprintf("one of %d goroutines", cfg.G), tracked)
 			}
 		}
 		totalEvals += evals
